@@ -5669,7 +5669,7 @@ func foldBinaryLiterals(op ir.BinaryOperator, left, right ir.LiteralValue) (ir.L
 			if vr == 0 {
 				return nil, false
 			}
-			result = vl - float64(int64(vl/vr))*vr
+			result = vl - math.Trunc(vl/vr)*vr
 		case ir.BinaryEqual:
 			boolResult = vl == vr
 			isBoolOp = true
@@ -12555,7 +12555,7 @@ func (l *Lowerer) tryFoldBinaryOp(op ir.BinaryOperator, left, right ir.Expressio
 			if vr == 0 {
 				return 0, false
 			}
-			result = vl - float64(int64(vl/vr))*vr
+			result = vl - math.Trunc(vl/vr)*vr
 		case ir.BinaryEqual:
 			boolResult = vl == vr
 			isBoolOp = true
@@ -12631,7 +12631,7 @@ func (l *Lowerer) tryFoldBinaryOp(op ir.BinaryOperator, left, right ir.Expressio
 			if fR == 0 {
 				return 0, false
 			}
-			result = fL - float64(int64(fL/fR))*fR
+			result = fL - math.Trunc(fL/fR)*fR
 		case ir.BinaryEqual:
 			boolResult = fL == fR
 			isBoolOp = true
